@@ -161,8 +161,9 @@ func (m *Model) PullPositions(ctx context.Context, ops ...resource.ReadOption) <
 
 			positions.Preset, _ = m.presetForValue(positions.States)
 
-			// projection and filtering
-			responseFilter.Filter(positions)
+			// projection and filtering, on a copy: the states are the stored messages, which a read mask that
+			// goes below `states` (e.g. states.open_percent) must not clear fields of
+			positions = responseFilter.FilterClone(positions).(*traits.OpenClosePositions)
 			if eq(last, positions) {
 				continue
 			}
